@@ -63,9 +63,18 @@ package cache
 
 // Trim: nothing at all happens when a trim is recent; otherwise the cutoff is
 // now - 5d - 1h for every subdirectory pass.
+//@ ghost var gSubCount Int
+//@ ghost var gHexName Str
 //@ func (*Cache).Trim
 //@   names (err)
 //@   requires c != nil
+//@   modifies all
+//@   at call fmt.Sprintf#1: requires sid(format) == sid("%02x") && len(a) == 1 && unbox(at(a, lo(a))) == i && gSubCount == old(gSubCount) + i
+//@   at call fmt.Sprintf#1: ghost_after gHexName = r
+//@   at call (*cache.Cache).trimSubdir#1: requires sameStr(subdir, joinP(c.dir, gHexName))
+//@   at call (*cache.Cache).trimSubdir#1: ghost_after gSubCount = gSubCount + 1
+//@   loop 1: invariant 0 <= rangeint && rangeint < 256 && gSubCount == old(gSubCount) + rangeint
+//@   ensures err == nil && !recentTrim(rdErr == nil, sid(rec), tns(nowV)) ==> gSubCount == old(gSubCount) + 256
 //@   callee c.now() (r): modifies clock; ensures tns(r) >= old(clock) && clock == tns(r); bind nowV = r
 //@   at call lockedfile.Read#1: bind rdErr = err
 //@   at call strings.TrimSpace#1: bind rec = r
@@ -126,7 +135,7 @@ package cache
 //@   ensures err == nil && old(failBudget) == 0 ==> fsMtime[file] > old(clock) - hour()
 
 // ---- C11 / C12: the store side ----
-//@ property C12: (*Cache).put, (*Cache).copyFile, (*Cache).putIndexEntry, (*Cache).fileName
+//@ property C12: (*Cache).put, (*Cache).copyFile, (*Cache).putIndexEntry, (*Cache).fileName, (*Cache).GetFile, (*Cache).GetBytes, (*Cache).Get, (*Cache).get, get$1, (*Cache).used, (*Cache).OutputFile
 //@ property C11: (*Cache).putIndexEntry, (*Cache).copyFile, (*Cache).put, (*Cache).get, get$1, (*Cache).GetBytes, (*Cache).GetFile, (*Cache).used, (*Cache).fileName, (*Cache).OutputFile, (*Cache).Get
 
 // cache-local step contracts: truncating to zero or removing a file sets the ghost
